@@ -7,6 +7,9 @@ rm -f Makefile Makefile.conf .Makefile.d
 find . -name '*.vo' -o -name '*.vok' -o -name '*.vos' -o -name '*.glob' -o -name '.*.aux' | xargs rm -f
 coq_makefile -f _CoqProject -o Makefile
 timeout 3000 make -j16 > ../.setup_coq.log 2>&1 || { tail -50 ../.setup_coq.log; exit 1; }
+# models regenerated from /repo sources + their equivalence lemmas (re-done by every check as well)
+python3 ../translator/py2gallina.py ${VERIF_REPO:-/repo} Gen > ../.setup_gen.log 2>&1 || { cat ../.setup_gen.log; exit 1; }
+for g in Gen/Gen*.v; do n=$(basename $g .v); timeout 300 coqc -Q . PV $g && timeout 600 coqc -Q . PV GenProofs/${n}P.v > /dev/null || exit 1; done
 cd ../ocaml
 make -s clean
 timeout 900 make -s runner
